@@ -275,7 +275,7 @@ func (P) exec(line string) string {
 		if tip != nil {
 			last = tip
 		}
-		bits, err := blockchain.VerifCalcNextRequiredDifficulty(last, time.Unix(newTime, 0), cctx{&p})
+		bits, err := blockchain.VerifCalcNextRequiredDifficulty(last, subSecond(newTime), cctx{&p})
 		if err != nil {
 			return "assert"
 		}
@@ -529,4 +529,14 @@ func generateBase(g *core.Gen) {
 		}
 		g.Case("subsidy-rand", true, fmt.Sprintf("C09 subsidy %d %d", h, iv))
 	}
+}
+
+// subSecond returns a time.Time inside the second `sec` with a non-zero, input-derived nanosecond part.
+// The next block's header carries whole seconds (wire truncates), so the protocol-defined required
+// difficulty for a candidate time depends on its second only; callers such as the block-template code
+// pass wall-clock times with a fractional part (seed C09-g: a time.After comparison differs exactly at
+// prev + MinDiffReductionTime).
+func subSecond(sec int64) time.Time {
+	ns := int64((uint64(sec)*2654435761)%999999999) + 1
+	return time.Unix(sec, ns)
 }
